@@ -133,6 +133,8 @@ pub enum ClientStep {
     Reset,
     /// wait until the server has closed its sending side
     AwaitEof,
+    /// wait until at least this many response bytes were received
+    AwaitLen(usize),
     /// move the virtual wall clock
     JumpWall(i64),
 }
